@@ -25,7 +25,7 @@ def run(chk):
     rnd = random.Random(chk.seed)
     # 1. design level
     maxw = 8 if quick else 10
-    res = lib.tlc("BitOpsAlg", "MC_BitOpsAlg_cmp.cfg", env={"MAXW": maxw}, workers=8 if quick else 12,
+    res = lib.tlc("BitOpsAlg", "MC_BitOpsAlg_cmp.cfg", env={"MAXW": maxw}, workers=bc.workers(8 if quick else 12),
                   timeout=600 if quick else 3000, coverage=False)
     chk.add_tlc(res, "design")
     if not res.ok:
@@ -60,11 +60,11 @@ def run(chk):
                 a = [bc.s(rnd.choice(pool)) for _ in range(na)]
                 b = [bc.s(rnd.choice(pool)) for _ in range(nb)]
                 jobs.append({"id": len(jobs), "op": op, "sg": sg, "w": w, "a": a, "b": b, "sa": sa, "sb": sb})
-    recs, bad = bc.run_ops(chk, jobs, "cmp", workers=4 if quick else 8)
+    recs, bad = bc.run_ops(chk, jobs, "cmp", workers=bc.workers(4 if quick else 8))
     for rec, v in bad:
         sig = {"op": rec["op"], "signed": rec["sg"], "w": rec["w"], "why": v["why"],
                "broadcast": rec["sa"] != rec["sb"]}
-        chk.violation(sig, {"verdict": v, "case": bc.small(rec, v["idx"]), "job": jobs[rec["id"]] if not jobs[rec["id"]].get("exh") else {"exh": True}})
+        chk.violation(sig, {"cmd": "ops", "jobs_file": chk.path("jobs_cmp.ndjson"), "job_id": rec["id"], "verdict": v, "case": bc.small(rec, v["idx"]), "job": {k: (v if not isinstance(v, list) or len(v) <= 24 else "%d values (seed %d)" % (len(v), chk.seed)) for k, v in jobs[rec["id"]].items()}})
     chk.note("exhaustive_widths_on_code", list(exh_w))
     chk.note("exhaustive_pairs_on_code", sum(bc.n_elems(r) for r in recs if r["exh"] == 1))
     chk.note("wide_widths", wide)
@@ -76,7 +76,14 @@ def run(chk):
         if r["out"] == "ok" and r["exh"] == 0 and r["w"] >= 64 and r["sa"] == r["sb"] == r["so"] and len(r["a"]) > 7:
             chk.sample({"op": r["op"], "signed": r["sg"], "w": r["w"], "a": "".join(map(str, r["a"][7])),
                         "b": "".join(map(str, r["b"][7])), "result": r["r"][7], "bits": "LSB first"})
+    if not chk.samples:
+        r = recs[0]
+        chk.sample({"op": r["op"], "signed": r["sg"], "w": r["w"], "a": r["a"][:4], "b": r["b"][:4], "result": r["r"][:4]})
     chk.assumptions += [
         "operands are bit arrays [..., w], least significant bit first (layout of A2B)",
         "signed comparison of 1-bit operands is rejected by the library (documented); the check expects the error",
     ]
+
+
+def replay(path):
+    return bc.replay(path)
